@@ -67,7 +67,23 @@ class CallObj:
 
 @pp.register_pretty(CallObj)
 def _pretty_callobj(v, ctx):
-    return pp.pretty_call_alt(ctx, v.fn, args=v.args, kwargs=v.kwargs)
+    # printers hand pretty_call_alt their arguments in every shape the documentation allows: sequences, dicts, and one-shot
+    # iterators (the bundled printers themselves pass zip / chain / generator objects); the shape is a function of the object
+    shape = (len(v.args) * 7 + len(v.kwargs) * 3 + sum(len(k) for k, _ in v.kwargs)) % 5
+    kw = v.kwargs
+    if not v.kwargs:
+        shape = 0      # an empty one-shot iterator is truthy, which only changes the hugging of a sole argument (layout, not content)
+    if shape == 1:
+        kw = dict(v.kwargs)
+    elif shape == 2:
+        kw = ((k, x) for k, x in v.kwargs)
+    elif shape == 3:
+        kw = zip([k for k, _ in v.kwargs], [x for _, x in v.kwargs])
+    elif shape == 4:
+        import itertools
+        kw = itertools.chain(v.kwargs[:1], v.kwargs[1:])
+    args = v.args if shape % 2 == 0 else list(v.args)
+    return pp.pretty_call_alt(ctx, v.fn, args=args, kwargs=kw)
 
 
 class Ctor:
